@@ -173,3 +173,43 @@ pub fn explore(fl: &str, nnodes: usize, max_edges: usize, nvals: usize, ctxs: &m
     }
     (seen.len(), pairs)
 }
+
+/// C15 only: a history in which some keys are carried by TWO live node objects (`TWIN + k` addresses the second one).
+/// Lookups go by key, adjacency by object: the two implementations must still agree call by call. Includes a hub that
+/// grows past 16 and 32 edges (degree thresholds).
+pub fn twin_history(rng: &mut Rng, fl: &str, id: &str, nnodes: usize, ncalls: usize) -> Vec<String> {
+    use crate::exec::TWIN;
+    let mut l = vec![format!("case {fl} {id}")];
+    for k in 0..nnodes {
+        l.push(format!("new {k} {}", rng.below(3)));
+    }
+    let ntw = 1 + rng.below(2);
+    let mut ids: Vec<usize> = (0..nnodes).collect();
+    for _ in 0..ntw {
+        let k = rng.below(nnodes);
+        if !ids.contains(&(TWIN + k)) {
+            l.push(format!("new {} {}", TWIN + k, 5 + rng.below(3)));
+            ids.push(TWIN + k);
+        }
+    }
+    let hub = rng.below(nnodes);
+    let grow = rng.chance(50);
+    for i in 0..ncalls {
+        let u = if grow && i < 40 { hub } else { ids[rng.below(ids.len())] };
+        let v = ids[rng.below(ids.len())];
+        match rng.below(if grow && i < 40 { 3 } else { 10 }) {
+            0..=2 => l.push(format!("connect {u} {v} {}", rng.below(4))),
+            3 | 4 => l.push(format!("try_connect {u} {v} {}", 10 + rng.below(4))),
+            5 | 6 => l.push(format!("disconnect {u} {v}")),
+            7 => l.push(format!("isolate {u}")),
+            8 => l.push(format!("q {u} {}", v % TWIN)),
+            _ => l.push(format!("obs {u}")),
+        }
+        if rng.chance(30) {
+            l.push("dump".into());
+        }
+    }
+    l.push("dump".into());
+    l
+}
+
